@@ -3,6 +3,7 @@ Relative Components Analysis (RCA)
 """
 
 import numpy as np
+import scipy.linalg
 import warnings
 from sklearn.base import TransformerMixin
 
@@ -112,10 +113,11 @@ class RCA(MahalanobisMixin, TransformerMixin):
     # Fisher Linear Discriminant projection
     if dim < X.shape[1]:
       total_cov = np.cov(X[chunk_mask], rowvar=0)
-      tmp = np.linalg.lstsq(total_cov, inner_cov, rcond=None)[0]
-      vals, vecs = np.linalg.eig(tmp)
-      # tmp is similar to a symmetric matrix, so its spectrum is real
-      vals, vecs = np.real(vals), np.real(vecs)
+      # eigenvectors of inv(total_cov).dot(inner_cov), computed through the
+      # symmetric generalised eigenproblem: a general eigensolver returns
+      # complex pairs for the repeated eigenvalue that this matrix has
+      # whenever there are fewer chunks than features
+      vals, vecs = scipy.linalg.eigh(inner_cov, total_cov)
       inds = np.argsort(vals)[:dim]
       A = vecs[:, inds]
       inner_cov = np.atleast_2d(A.T.dot(inner_cov).dot(A))
